@@ -7,13 +7,13 @@ VERIF = os.path.dirname(os.path.dirname(os.path.abspath(__file__)))
 import re
 IMPLEMENTED = sorted(set(re.findall(r'"(C\d\d)"', open(os.path.join(VERIF, "harness/vlib/src/props/mod.rs")).read())))
 
-T_MODEL = "generated inputs (bounded-exhaustive class-alphabet enumeration, 256-value byte sweeps, lane-phase families, proptest-driven grammar generation with mutations and shrinking) compared with an independent executable reference model"
+T_MODEL = "generated inputs under the native, the scalar and the SSE4.2 scanner backend (bounded-exhaustive class-alphabet enumeration, 256-value byte sweeps, lane-phase families, proptest-driven grammar generation with mutations and shrinking) compared with an independent executable reference model, which is itself checked against the expectations extracted from the repository's own tests"
 T_META = "generated inputs (proptest-driven grammar generation with mutations and shrinking, bounded-exhaustive enumeration) judged by a metamorphic / differential relation between runs of the real parser"
 
 CHECKS = {
- "C01": dict(tech="generated inputs placed against guard pages, run through every entry point / config / capacity / backend in release and debug-assertion builds; crash containment by supervisor+worker; libFuzzer+ASan and Miri in the thorough tier",
+ "C01": dict(tech="generated inputs placed against guard pages, run through every entry point / config / capacity / backend in release and debug-assertion builds; crash containment by supervisor+worker; valgrind memcheck on exact-size heap allocations of the production build; libFuzzer+ASan in the thorough tier",
    text="Exploration: millions of generated and enumerated buffers (grammar-derived with mutations, class strings, raw bytes, every length 0..=300 of base messages, scale families to 1 MiB) are parsed through all entry points, 128 configs, capacities incl. 0, three placements against PROT_NONE guard pages and each runtime backend, in a release and a debug-assertion+overflow-check build. Any signal, panic, out-of-range offset or write outside the caller's header array is a violation. This is the right level because the property is a universally quantified crash/UB-freedom claim that only search plus sanitising placement can attack; it does not prove absence.",
-   note="x86-64 only (no 32-bit, aarch64 or big-endian target installed); over-reads that stay inside the arena and the same page are invisible to guard pages, which is why buffers end on the page edge and ASan/Miri are used in the thorough tier", ref="5/C01"),
+   note="x86-64 only (no 32-bit, aarch64 or big-endian target installed); over-reads that stay inside the arena and the same page are invisible to guard pages, which is why buffers end on the page edge, memcheck runs the production build on exact-size heap allocations in both tiers and ASan is used in the thorough tier (Miri proved too slow for this harness and is not used)", ref="5/C01"),
  "C02": dict(tech=T_META+": prefix closure (all split points) and replayed chunking histories",
    text="Exploration with a pure metamorphic oracle: for generated base buffers of all four kinds, every prefix is parsed in its own exact-length guard-page buffer; Complete/Err must be stable under extension with identical fields and headers, prefixes shorter than n must be Partial, fields reported with Partial must equal the final ones, and a generated chunking history must end in the one-shot answer.",
    note="bounded by generated buffers (all split points for len<=400, 64 sampled beyond)", ref="5/C02"),
@@ -50,19 +50,19 @@ CHECKS = {
  "C15": dict(tech=T_META+": default-accepted buffers under all 128 configs; any buffer under configs differing only in other-kind options",
    text="Exploration with a metamorphic oracle: every default-Complete generated buffer is re-parsed under all 128 configs and must give the identical result (modulo the documented reason-phrase exception); every buffer is parsed under all pairs of configs that differ only in other-kind bits and must give identical results.",
    note="bounded by the generated domain", ref="5/C15"),
- "C16": dict(tech=T_META+": differential comparison of the 4 request, 3+1 response and 1 header entry points",
-   text="Exploration with a differential oracle: the entry points of a kind must agree on status, fields, headers and the caller's array for the same buffer/config/capacity; parse_headers(h) must agree with the header part of a request/response whose start line is followed by h.",
+ "C16": dict(tech=T_META+": differential comparison of the 4 request, 3+1 response and 1 header entry points, on fresh values and over sequences of calls on one reused value",
+   text="Exploration with a differential oracle: the entry points of a kind must agree on status, fields, headers and the caller's array for the same buffer/config/capacity; parse_headers(h) must agree with the header part of a request/response whose start line is followed by h (six fixed start lines, and the generated message's own start line); the same sequence of 2..4 buffers parsed on one reused value through each entry point must leave the same state after every call.",
    note="Response has no parse_with_uninit_headers of its own; the fourth response entry is ParserConfig::default().parse_response_with_uninit_headers", ref="5/C16"),
  "C17": dict(tech=T_META+": capacity sweep 0..=k+2 against the unlimited-capacity run, sentinel/poison-prefilled arrays in a guard-page arena",
    text="Exploration: arrays are pre-filled with recognisable sentinels (initialised entry points) or poison (uninit entry points) and abut a guard page; count, untouched slots, the capacity law against the capacity-64 run, and the state of `headers` after Partial/Err are checked for every capacity 0..=k+2.",
    note="bounded by generated blocks with k=0..12 lines", ref="5/C17"),
  "C18": dict(tech="stateful generation: histories of 1..4 earlier parse calls on one Request/Response followed by a probe, compared with the probe on a fresh value",
-   text="Exploration over call histories (vec(op)+interpreter, shrunk as one value): the probe's status, and fields/headers on Complete, must equal those of a fresh value whose array length equals the reused value's headers.len() just before the probe.",
+   text="Exploration over call histories (vec(op)+interpreter, shrunk as one value): the probe's status, and fields/headers on Complete, must equal those of a fresh value whose array length equals the reused value's headers.len() just before the probe; while no call has completed the value must still lend the caller's whole array (the documented loop behaves like a fresh value each time).",
    note="bounded by histories of length <= 4", ref="5/C18"),
- "C19": dict(tech="generated inputs under a counting global allocator armed around each call; build of the crate against core only",
+ "C19": dict(tech="generated inputs under a counting global allocator armed around each call, in release and debug-assertion builds; build of the crate against core only",
    text="Exploration: a counting #[global_allocator] with a thread-local armed flag set around exactly the call must see zero allocator calls for all entry points, configs and outcomes (histogram shows each populated); cargo +nightly build -Zbuild-std=core --target x86_64-unknown-none --no-default-features must succeed.",
    note="allocation is observed through the global allocator only", ref="5/C19"),
- "C20": dict(tech="adversarial parametric input families up to 1 MiB judged by instrumentation counters (hook H3); instruction-count scaling under cachegrind in the thorough tier",
+ "C20": dict(tech="adversarial parametric input families up to 1 MiB judged by instrumentation counters (hook H3); instruction-count scaling of the production build under cachegrind (both tiers)",
    text="Exploration: per-call counters of the cursor primitives (advance bytes, backward set_cursor, peek_n calls, other primitive calls) on adversarial families at 1 KiB..1 MiB must satisfy the forward-only invariants and the linear bounds; measured maxima are recorded.",
    note="counter bounds are constants derived from the statement and validated against measured maxima on the unchanged tree; wall-clock time is never judged", ref="5/C20"),
 }
